@@ -68,7 +68,7 @@ def _ext_chains(n):
 
 # representative atoms (one per class family / compile path) for the deepest levels of the quick tier
 DEEP_ACC = {'ro': ['exp', 'minof'], 'dro': ['log', 'Eminof']}
-EXT2 = {'ro': ['exp', 'plogc', 'minof'], 'dro': ['log', 'maxof', 'Emaxof']}
+EXT2 = {'ro': ['exp', 'minof'], 'dro': ['plogv', 'Emaxof']}
 DEEP_MEAN = {'ro': ['exp', 'maxof'], 'dro': ['quadn', 'Eminof']}
 DEPTH4 = {'ro': ['exp', 'minof'], 'dro': ['pexp', 'Emaxof']}
 
@@ -113,6 +113,8 @@ def gen_cases(tier, seed):
                         yield c
     for fe in FES:
         for atom in R.atoms_of(fe):
+            if not thorough and atom in R.PERSP_ATOMS['dro']:
+                continue        # quick: their depth-2/3 space is the perspective family below (2b)
             for chain in _chains(A12, 2):
                 for use in R.USE_NAMES:
                     yield {'k': 'acc', 'fe': fe, 'atom': atom, 'chain': chain, 'use': use, 'pal': pal0}
@@ -125,6 +127,17 @@ def gen_cases(tier, seed):
         for atom in (R.atoms_of(fe) if thorough else DEEP_MEAN[fe]):
             for chain in _chains(A12, 2):
                 for c in _mean_cases(fe, atom, chain, R.USES7, pal0, 4 if thorough else 2, False):
+                    yield c
+    # 2b. perspective atoms with a variable scale: [affine addition] [scaling by 2.5, 0.4, -1, -2, 2] [affine addition]
+    done = set(tuple(c) for d in (0, 1, 2) for c in _chains(A12, d))
+    for fe in FES:
+        for atom in R.PERSP_ATOMS[fe]:
+            for chain in R.persp_chains():
+                if tuple(chain) not in done or len(chain) == 2:
+                    for use in R.USE_NAMES:
+                        yield {'k': 'acc', 'fe': fe, 'atom': atom, 'chain': chain, 'use': use, 'pal': pal0}
+                uses = R.USE_NAMES if (thorough or len(chain) <= 1) else R.USES7
+                for c in _mean_cases(fe, atom, chain, uses, pal0, 4 if thorough else 2, False):
                     yield c
     # 3. depth 3 (thorough: all atoms, all uses; quick: one atom per class family, 7 uses)
     for fe in FES:
@@ -167,6 +180,8 @@ def bounds(tier):
             'meaning_depth_selected_atoms': None if th else {'depth': 2, 'atoms': DEEP_MEAN},
             'grid_points_per_form': '6 (depth 0), 4 (depth 1), 2 (depth 2)' if not th else '6 (depth<=1), 4 (depth 2)',
             'extra_symbols_depth2_atoms': 'all' if th else EXT2,
+            'perspective_family': {'atoms': R.PERSP_ATOMS, 'pre': R.PERSP_PRE, 'scaling': R.PERSP_MUL,
+                                   'post': R.PERSP_POST},
             'palettes': 4 if th else 1, 'bilinear_classes': BIL_CLASSES}
 
 
@@ -279,7 +294,7 @@ def _run_acc(case):
         return {'status': 'pass', 'outcome': 'zero-rejected@' + rej.split(':')[0], 'ops': env.ops, 'nontrivial': False}
     how = _compile(env, use)
     if how != 'compiled':
-        base = _base_compiles(fe, atom, pal)
+        base = _base_compiles(fe, atom, pal, R.USES[use][0] in ('min', 'max'))
         if base != 'compiled':
             # the front end cannot compile this atom even in its plain legal use: nothing specific to the zero multiple
             return {'status': 'unsupported', 'outcome': 'zero-accepted,atom-not-compilable-here', 'ops': env.ops}
@@ -292,12 +307,15 @@ def _run_acc(case):
 _BASE = {}
 
 
-def _base_compiles(fe, atom, pal):
-    """Does the plain atom compile in its legal comparison with a constant (per worker cache)?"""
-    key = (fe, atom)
+def _base_compiles(fe, atom, pal, is_obj=False):
+    """Does the plain atom compile in its legal comparison with a constant / as its legal objective (worker cache)?"""
+    key = (fe, atom, is_obj)
     if key not in _BASE:
         B = _B['B']
-        use = 'le_c' if R.ATOMS[atom][0] > 0 else 'ge_c'
+        if is_obj:
+            use = 'min' if R.ATOMS[atom][0] > 0 else 'max'
+        else:
+            use = 'le_c' if R.ATOMS[atom][0] > 0 else 'ge_c'
         env = B.Env(fe)
         g, err = _build_expr(env, atom, [])
         if err is not None or _handover(env, g, atom, use, pal) is not None:
